@@ -114,6 +114,7 @@ type Runner struct {
 	AlsoShow    bool // additionally run `wire show ./...` on the same tree
 	ShowVariants []ShowVariant // further runs of wire show (another binary and/or environment); outputs in Result.ShowOuts
 	ExtraGen   []string // extra args for wire gen (before patterns)
+	ExtraRO    []string // extra args for wire check / wire show (before patterns)
 	Cmd        string   // wire subcommand (default gen)
 
 	Deadline      time.Time // internal deadline: batches not started by then are not run (exhaustive=false, exit 0)
@@ -488,7 +489,8 @@ func (rn *Runner) runReadOnly(mod string, results []*Result, forceSolo bool) {
 	for _, pass := range passes {
 		sub := pass.sub
 		before := dirHash(mod)
-		res := RunLimited(mod, pass.env, rn.GenTimeout, WireMemKB, pass.bin, sub, "./...")
+		roArgs := append(append([]string{pass.bin, sub}, rn.ExtraRO...), "./...")
+		res := RunLimited(mod, pass.env, rn.GenTimeout, WireMemKB, roArgs...)
 		rn.mu.Lock()
 		rn.WireRuns++
 		rn.mu.Unlock()
@@ -508,7 +510,8 @@ func (rn *Runner) runReadOnly(mod string, results []*Result, forceSolo bool) {
 		if soloAll {
 			for _, r := range results {
 				b := dirHash(filepath.Join(mod, r.Case.Dir))
-				sr := RunLimited(mod, pass.env, rn.SoloTimeout, WireMemKB, pass.bin, sub, "./"+r.Case.Dir+"/...")
+				soloArgs := append(append([]string{pass.bin, sub}, rn.ExtraRO...), "./"+r.Case.Dir+"/...")
+				sr := RunLimited(mod, pass.env, rn.SoloTimeout, WireMemKB, soloArgs...)
 				rn.mu.Lock()
 				rn.WireRuns++
 				rn.mu.Unlock()
